@@ -111,6 +111,11 @@ class Universe:
     def doc_tokens(self, known_pids, known_fmts):
         return {self.H(self.pid(p) + self.fmt(f)): (p, f) for p in known_pids for f in known_fmts}
 
+    def doc_tokens2(self, known_pids, known_fmts):
+        """keyed by (directory hash, document name): concatenation-colliding pairs stay distinct"""
+        return {(self.H(self.pid(p)), self.H(self.pid(p) + self.fmt(f))): (p, f)
+                for p in known_pids for f in known_fmts}
+
     def props(self, root):
         return {"store_path": str(root), "store_depth": self.depth, "store_width": self.width,
                 "store_algorithm": self.algorithm, "store_metadata_namespace": self.ns}
@@ -146,6 +151,7 @@ class Abstractor:
         self.u, self.root = u, str(root)
         self.pidtok = u.pid_tokens(pids)
         self.doctok = u.doc_tokens(pids, fmts)
+        self.doctok2 = u.doc_tokens2(pids, fmts)
 
     def addr(self, rel):
         """relative path (file) -> model address string, or '?<rel>' if it is not the image of one."""
@@ -168,9 +174,8 @@ class Abstractor:
         if parts[0] == "metadata" and len(parts) > 2:
             d = "".join(parts[1:-1])
             name, k = strip_delete(parts[-1])
-            pf = self.doctok.get(name)
-            p = self.pidtok.get(d)
-            if pf is not None and p == pf[0]:
+            pf = self.doctok2.get((d, name))
+            if pf is not None:
                 return "X" * k + "M%d.%d" % pf
             return "X" * k + "M?" + d[:6] + "/" + name[:6]
         return "?" + rel
